@@ -24,7 +24,7 @@ var c22Origin string
 
 func init() {
 	register(&Property{ID: "C22", Run: runC22, Mutants: []Mutant{
-		{Name: "Apply copies the gap up to the edit's end instead of its start", File: "internal/lsp/diff/diff.go", Old: "\t\tout = append(out, src[lastEnd:start]...)", New: "\t\tout = append(out, src[lastEnd:end]...)", Expect: "origin-agreement :: diff.ApplyBytes"},
+		{Name: "Apply copies the gap up to the edit's end instead of its start", File: "internal/lsp/diff/diff.go", Old: "\t\t\tout = append(out, src[lastEnd:edit.Start]...)", New: "\t\t\tout = append(out, src[lastEnd:edit.End]...)", Expect: "origin-agreement :: diff.Apply"},
 		{Name: "validate accepts overlapping edits", File: "internal/lsp/diff/diff.go", Old: "\t\tif !(0 <= edit.Start && edit.Start <= edit.End && edit.End <= len(src)) {", New: "\t\tif !(0 <= edit.Start && edit.End <= len(src)) {", Expect: "origin-agreement :: diff.validate"},
 		{Name: "edit start looked up in the target text's offset table", File: "internal/lsp/diff/ndiff.go", Old: "Edit{boffs[d.Start], boffs[d.End],", New: "Edit{aoffs[d.Start], boffs[d.End],", Expect: "rune-offsets-from-source :: edits diffRunes"},
 		{Name: "replacement cut out with the deleted range's indices", File: "internal/lsp/diff/ndiff.go", Old: "after[aoffs[d.ReplStart]:aoffs[d.ReplEnd]]", New: "after[aoffs[d.ReplStart]:aoffs[d.End]]", Expect: "rune-offsets-from-source :: edits diffRunes"},
@@ -34,7 +34,7 @@ func init() {
 		{Name: "invalid bytes all get the same value", File: "internal/lsp/diff/ndiff.go", Old: "r = invalidRune + rune(text[i])", New: "r = invalidRune + rune(sz)", Expect: "rune-offsets-from-source :: decoder decodeRunes"},
 		{Name: "Strings passes the texts swapped", File: "internal/lsp/diff/ndiff.go", Old: "return diffRunes(before, after)", New: "return diffRunes(after, before)", Expect: "rune-offsets-from-source :: caller Strings"},
 		{Name: "isASCIIByte treats 0x80 as ASCII", File: "internal/lsp/diff/ndiff.go", Old: "func isASCIIByte(s []byte) bool {\n\tfor i := 0; i < len(s); i++ {\n\t\tif s[i] >= utf8.RuneSelf {", New: "func isASCIIByte(s []byte) bool {\n\tfor i := 0; i < len(s); i++ {\n\t\tif s[i] > utf8.RuneSelf {", Expect: "ascii-test"},
-		{Name: "lcs: forward search compares the wrong diagonal", File: "internal/lsp/diff/lcs/old.go", Old: "e.setForward(D, k, x)", New: "e.setForward(D, k+1, x)", Expect: "origin-agreement"},
+		{Name: "lcs: forward search compares the wrong diagonal", File: "internal/lsp/diff/lcs/old.go", Old: "\t\t\t\te.setForward(D+1, k, lookv)", New: "\t\t\t\te.setForward(D+1, k+1, lookv)", Expect: "origin-agreement"},
 	}})
 }
 
